@@ -41,7 +41,10 @@ def main():
     mod = importlib.import_module("props." + pid.lower())
     if a.replay:
         sys.exit(mod.replay(ctx, a.replay))
+    state = {"binfo": binfo, "level": getattr(mod, "LEVEL", "proof"), "trusted": getattr(mod, "TRUSTED", ())}
+    common.start_watchdog(ctx, state)
     props_res = common.check_props(pid, thorough=(tier == "thorough"))
+    state["props_res"] = props_res
     try:
         mod.run(ctx)
     except Exception:
